@@ -25,7 +25,10 @@ Record mx_case := {
   x_thr : list (nat * nat * bool);     (* per attempt: member, handle, short timeout *)
   x_ev : list (Z * nat);               (* 0 Acq a | 1 Rel a | 2 Fail a | 3 Keys n | 4 Hung | 5 Regrant a (lease of a's member
                                           granted again + fresh cluster.Mutex() handle, done by the holder a) *)
-  x_maxov : Z                          (* max value of the harness' in-critical-section counter *)
+  x_maxov : Z;                         (* max value of the harness' in-critical-section counter *)
+  x_ids : list (list nat)              (* member names / lease keys / lease ids of the members (the secondaries run
+                                          with DEFAULT names): per member the index of the first member with the
+                                          same value *)
 }.
 
 Definition mx_cfg (c : mx_case) : tid -> thr := fun t =>
@@ -86,6 +89,8 @@ Fixpoint nodup_nat (l : list nat) : bool :=
 Definition mx_prop (c : mx_case) : bool :=
   mx_prop_ev c None (x_ev c) &&
   (x_maxov c <=? 1) &&
+  (* the model's "one session (lease) per member" rests on it: members have distinct names, lease keys, leases *)
+  forallb nodup_nat (x_ids c) && negb (match x_ids c with [] => true | _ => false end) &&
   (* every attempt ended exactly once: acquired (and released) or failed *)
   Nat.eqb (count_code 0 (x_ev c) + count_code 2 (x_ev c)) (List.length (x_thr c)) &&
   Nat.eqb (count_code 0 (x_ev c)) (count_code 1 (x_ev c)) &&
